@@ -370,6 +370,9 @@ inductive SV where
   /-- an accessor property: its getter returns `r` and makes the holder's property `hide`
       non-enumerable while it runs -/
   | getter (r : SV) (hide : Str)
+  /-- an object with a prototype: own enumerable members, own NON-enumerable members, and the
+      members it inherits (Object.create(proto) / new C with C.prototype = proto) -/
+  | objP (own nonEnum proto : SMs)
 inductive SVs where
   | nil
   | cons (v : SV) (t : SVs)
@@ -377,6 +380,10 @@ inductive SMs where
   | nil
   | cons (k : Str) (v : SV) (t : SMs)
 end
+
+def SMs.app : SMs → SMs → SMs
+  | .nil, m => m
+  | .cons k v t, m => .cons k v (SMs.app t m)
 
 def SMs.get (k : Str) : SMs → SV
   | .nil => .undef
@@ -502,7 +509,7 @@ def viaGet : SV → SV
 /-- `value.IsObject()`: the value's kind is valueObject (null and undefined are not) -/
 def isObjectKind : SV → Bool
   | .func | .boxNum _ | .boxStr _ | .boxBool _ | .arr _ | .obj _ | .tojson _ | .back _
-  | .wrapNum .. | .wrapStr .. => true
+  | .wrapNum .. | .wrapStr .. | .objP .. => true
   | _ => false
 
 /-- the toJSON step of builtinJSONStringifyWalk: ONLY `if value.IsObject()` is `obj.get("toJSON")`
@@ -543,6 +550,17 @@ def walk (C : MCtx) : Nat → Nat → Str → SV → WR GV
       let r := match C.plist with
         | some ks => walkList C fuel (depth + 1) .nil m ks
         | none => walkObj C fuel (depth + 1) .nil m
+      match r with
+      | .val a => .val (.map a)
+      | .absent => .absent
+      | .throw => .throw
+      | .oof => .oof
+    | .objP own ne proto =>
+      -- the property list is looked up with `objHolder.get(name)`: own properties (enumerable or
+      -- not) first, then the prototype chain; without a list only the own enumerable names are walked
+      let r := match C.plist with
+        | some ks => walkList C fuel (depth + 1) .nil (SMs.app own (SMs.app ne proto)) ks
+        | none => walkObj C fuel (depth + 1) .nil own
       match r with
       | .val a => .val (.map a)
       | .absent => .absent
